@@ -84,8 +84,8 @@ def evOf (op : Json) : Option Ev := do
   let sn := (jNatField? op "sn").getD 0
   match kind with
   | "subres" => pure { p, n, sn, kind, text := if (jBoolField? op "ok").getD true then "submitted" else "submission failed" }
-  | "msg" => pure { p, n, sn, kind, text := ← jStrField? op "msg" }
-  | "pollres" => pure { p, n, sn, kind, text := ← jStrField? op "state" }
+  | "msg" => pure { p, n, sn, kind, text := baseMsg (← jStrField? op "msg") }
+  | "pollres" => pure { p, n, sn, kind, text := baseMsg (← jStrField? op "state") }
   | _ => none
 
 def isOutcome (t : String) : Bool := t == "succeeded" || t == "failed" || t == "submission failed"
@@ -115,7 +115,7 @@ def judgeConverge (ts : List TInfo) (ops obs : List Json) : List String :=
     let pollPending := cur.foldl (fun (pend : Bool) r => if r.fl == "polled" then r.r else pend || r.r) false
     match outcomes, cur.getLast? with
     | [o], some last =>
-      if sn == 0 || inconsistent || !(cur.any fun r => r.m == o) || pollPending then none else
+      if sn == 0 || inconsistent || !(cur.any fun r => baseMsg r.m == o) || pollPending then none else
       -- the last state of the instance: the pool at the end if it is still there under the same job
       let fin : Option Snap :=
         match finalPool.find? (fun x => x.p == k.1 && x.n == k.2) with
@@ -138,7 +138,7 @@ def judgeConverge (ts : List TInfo) (ops obs : List Json) : List String :=
               else if cur.any (fun r => r.m == msg && r.inPool) then some trig else none
         let lastChange := (cur.filter fun r => r.a.st != r.b.st).getLast?
         let pre := match lastChange with
-          | some r => if r.fl == "polled" && r.m != o then "late-poll: " else ""
+          | some r => if r.fl == "polled" && baseMsg r.m != o then "late-poll: " else ""
           | none => ""
         if !want.contains f.st then
           some s!"{pre}{k.1}/{k.2} job {sn} actually {o}, but the task ends {f.st} (outputs {f.out})"
